@@ -94,7 +94,8 @@ public:
   int64_t horizon = 400000000;
   int64_t dry_since = -1;
   bool hang_by_horizon = false;
-  // A poll entered at or after this virtual time is interrupted once (EINTR).
+  // A poll that is blocked at this virtual time (or entered and blocked after
+  // it) is interrupted once (EINTR), as by a signal the caller handles.
   int64_t intr_poll_at = -1;
   int64_t intr_fired_at = -1;
 
@@ -209,7 +210,7 @@ public:
         died(k, (int) (a.a & 0xff));
         break;
       case A_RAISE:
-        k.pup->send(PUP_RAISE, a.a);
+        k.pup->send(PUP_RAISE, a.a, a.b);  // b == 1: with a core file
         died(k, 128 + (int) a.a);
         break;
     }
@@ -292,7 +293,11 @@ private:
 
   // Waits (in virtual time) until a real poll on `fds` reports something, the
   // timeout passes, or nothing can ever happen.
-  int wait_ready(struct pollfd *fds, nfds_t n, int timeout, const char *what, int fd_for_log)
+  // `interruptible`: a pending interruption (`intr_poll_at`) is delivered the
+  // way a caught signal is: only to a wait that is really blocked (nothing
+  // ready, a timeout other than 0), at the moment it arrives; the call then
+  // fails with EINTR (return value -2 here).
+  int wait_ready(struct pollfd *fds, nfds_t n, int timeout, const char *what, int fd_for_log, bool interruptible = false)
   {
     int64_t entry = now;
     int64_t wake = timeout < 0 ? INF : entry + timeout;
@@ -308,6 +313,13 @@ private:
       }
       waited = true;
       int64_t next = next_time();
+      if (interruptible && intr_poll_at >= 0 && timeout != 0 && intr_poll_at < wake && (next == INF || intr_poll_at < next)) {
+        if (intr_poll_at > now) now = intr_poll_at;
+        intr_poll_at = -1;
+        intr_fired_at = now;
+        episodes.push_back({ what, fd_for_log, entry, now, false, in_start });
+        return -2;
+      }
       if (next != INF && next <= wake) {
         step();
         continue;
@@ -349,16 +361,12 @@ private:
   {
     World *w = current();
     w->polls++;
-    if (w->intr_poll_at >= 0 && w->now >= w->intr_poll_at) {
-      w->intr_poll_at = -1;
-      w->intr_fired_at = w->now;
+    *ret = w->wait_ready(fds, n, timeout, "poll", -1, true);
+    *err = 0;
+    if (*ret == -2) {
       *ret = -1;
       *err = EINTR;
-      return 1;
-    }
-    *ret = w->wait_ready(fds, n, timeout, "poll", -1);
-    *err = 0;
-    if (*ret < 0) *err = errno;
+    } else if (*ret < 0) *err = errno;
     return 1;
   }
 
